@@ -5,6 +5,7 @@ C05 - inheritance is computed as Python computes it.  Decides consumers and the 
         linearisations are computed in post-processing only
   R05.3 mro() hands out the stored linearisation starting with the class itself
   R05.4 bases are resolved in the scope enclosing the class, in both resolution passes; generic subscripts are stripped
+  R05.5 masking of inherited members ignores documentation privacy (templatewriter.util.unmasked_attrs)
 Does not decide: that mro._merge is C3 (an algorithmic equality with type.__mro__).
 """
 from __future__ import annotations
@@ -190,3 +191,30 @@ def run(repo: Repo, chk: Check, thorough: bool = False) -> None:
            f'the subscript is only stripped under `{norm(strip[0].test)[:70] if strip else "?"}`: other generic bases (e.g. mod.Base[int]) stay '
            'unresolvable strings and vanish from the MRO', vc.loc)
     chk.require('R05.4', 3)
+
+    # ------------------------------------------------------------------ R05.5
+    # Python's attribute lookup does not know about documentation privacy: an override masks the inherited member whether or not it is shown
+    ua = repo.func('pydoctor.templatewriter.util.unmasked_attrs')
+    prm = ua.params()[0].arg
+    PRESENTATION = ('isVisible', 'privacyClass', 'isPrivate', 'PrivacyClass', 'docstring', 'kind')
+    found = 0
+    for n in ua.walk():
+        gens = n.generators if isinstance(n, (ast.SetComp, ast.ListComp, ast.GeneratorExp, ast.DictComp)) else []
+        if gens and isinstance(gens[0].iter, ast.Subscript) and isinstance(gens[0].iter.value, ast.Name) and gens[0].iter.value.id == prm and \
+                isinstance(gens[0].iter.slice, ast.Slice):
+            found += 1
+            conds = [c for g in gens for c in g.ifs]
+            bad = [c for c in conds if any(isinstance(x, ast.Attribute) and x.attr in PRESENTATION for x in ast.walk(c))]
+            chk.ob('R05.5', 'templatewriter.util.unmasked_attrs :: every member of the nearer classes masks, shown or not', not bad,
+                   f'the masking names are collected from all of {prm}[1:] without a presentation filter' if not bad else
+                   f'masking names are filtered by `{norm(bad[0])}`: a hidden/private override no longer masks, so the page attributes the member to a '
+                   'farther base than Python\'s lookup does', repo.loc(ua.mod, n))
+        if isinstance(n, ast.For) and isinstance(n.iter, ast.Subscript) and isinstance(n.iter.value, ast.Name) and n.iter.value.id == prm and isinstance(n.iter.slice, ast.Slice):
+            found += 1
+            bad2 = [x for x in ast.walk(n) if isinstance(x, (ast.If, ast.IfExp)) and any(isinstance(y, ast.Attribute) and y.attr in PRESENTATION for y in ast.walk(x.test))]
+            chk.ob('R05.5', 'templatewriter.util.unmasked_attrs :: every member of the nearer classes masks, shown or not', not bad2,
+                   'loop form, no presentation filter' if not bad2 else f'masking names are filtered by `{norm(bad2[0].test)}`', repo.loc(ua.mod, n))
+    if not found:
+        raise AnalysisError('R05.5: the collection of masking names over baselist[1:] was not found in unmasked_attrs')
+    chk.require('R05.5', 1)
+
